@@ -347,7 +347,7 @@ pub fn threaded_round(ctx: &Ctx, nthreads: usize, ops_per_thread: usize, delay_u
                     let token = format!("r{}t{}i{}", round, th, i);
                     let which = rng.below(10);
                     let t_call = tick();
-                    let (kind, outcome): (&'static str, String) = if which < 6 {
+                    let op = std::panic::catch_unwind(std::panic::AssertUnwindSafe(|| -> (&'static str, String) { if which < 6 {
                         match MC::new(conn.clone(), "x.y.M", json!({ "token": token })).call() {
                             Ok(v) if v.get("token").and_then(|t| t.as_str()) == Some(&token) => ("call", "ok".into()),
                             Ok(v) => ("call", format!("FOREIGN:{}", v)),
@@ -392,6 +392,13 @@ pub fn threaded_round(ctx: &Ctx, nthreads: usize, ops_per_thread: usize, delay_u
                             }
                         };
                         ("more", r)
+                    } }));
+                    // a panic inside a client call (e.g. an unwrap on streams another thread has
+                    // taken) is neither the caller's own reply nor ConnectionBusy
+                    let panicked = op.is_err();
+                    let (kind, outcome): (&'static str, String) = match op {
+                        Ok(x) => x,
+                        Err(p) => ("?", format!("PANIC:{}", p.downcast_ref::<String>().cloned().or_else(|| p.downcast_ref::<&str>().map(|s| s.to_string())).unwrap_or_default())),
                     };
                     let t_ret = tick();
                     if outcome == "ok" {
@@ -400,6 +407,9 @@ pub fn threaded_round(ctx: &Ctx, nthreads: usize, ops_per_thread: usize, delay_u
                         bad.lock().unwrap().push(format!("thread {} {} {} -> {}", th, kind, token, outcome));
                     }
                     log.lock().unwrap().push(CliEv { t_call, t_ret, thread: th, token, kind, outcome });
+                    if panicked {
+                        break;
+                    }
                     if rng.chance(1, 3) {
                         std::thread::yield_now();
                     }
@@ -433,7 +443,7 @@ pub fn threaded_round(ctx: &Ctx, nthreads: usize, ops_per_thread: usize, delay_u
         "client_events": evs.iter().take(60).map(|e| format!("{:?}", e)).collect::<Vec<_>>(), "server_saw_tokens": seen.iter().take(80).collect::<Vec<_>>()});
     let b = bad.lock().unwrap().clone();
     if !b.is_empty() {
-        let sig = if b[0].contains("FOREIGN") { "c07:delivery:reply-delivered-to-other-call" } else { "c07:threads:unexpected-outcome" };
+        let sig = if b.iter().any(|m| m.contains("PANIC:")) { "c07:threads:client-call-panicked" } else if b[0].contains("FOREIGN") { "c07:delivery:reply-delivered-to-other-call" } else { "c07:threads:unexpected-outcome" };
         ctx.violation(sig, wit(format!("{:?}", &b[..b.len().min(5)])));
         return;
     }
